@@ -1,17 +1,17 @@
 package main
 
 import (
+	"encoding/json"
+	"fmt"
 	"go/ast"
 	"go/parser"
 	"go/token"
-	"path/filepath"
-	"sync"
-	"strconv"
-	"regexp"
-	"encoding/json"
-	"fmt"
 	"math/rand"
+	"path/filepath"
+	"regexp"
+	"strconv"
 	"strings"
+	"sync"
 	"time"
 )
 
